@@ -120,9 +120,23 @@ Section HashRoundtrip.
   Lemma single_keeps_in_use f now b o : i_l b = InUse -> i_l (fst (w_single H pre f now b o)) = InUse.
   Proof. intros E. unfold w_single. rewrite E. destruct (step f now (i_s b) o); simpl; reflexivity. Qed.
 
-  Lemma atomic_keeps_lstate f now b os : i_l (fst (w_atomic H pre f now b os)) = i_l b.
+  Lemma atomic_unrepaired_keeps_lstate f now b os : i_l (fst (w_atomic_unrepaired H pre f now b os)) = i_l b.
   Proof.
-    unfold w_atomic. destruct (atomic_run f now (i_s b) false false os) as [[[s' rs] ab] er]. destruct (er || ab); reflexivity.
+    unfold w_atomic_unrepaired. destruct (atomic_run f now (i_s b) false false os) as [[[s' rs] ab] er]. destruct (er || ab); reflexivity.
+  Qed.
+
+  Lemma atomic_keeps_in_use f now b os : i_l b = InUse -> i_l (fst (w_atomic H pre f now b os)) = InUse.
+  Proof.
+    intros E. unfold w_atomic. destruct (atomic_run f now _ false false os) as [[[s' rs] ab] er]. destruct (er || ab); [exact E | reflexivity].
+  Qed.
+
+  (* since the repair: an atomic bulk either commits, and the ledger is in-use, or has no effect on tables, hashes, state *)
+  Lemma atomic_flips_or_no_effect f now b os b' out : w_atomic H pre f now b os = (b', out) ->
+    i_l b' = InUse \/ (i_l b' = i_l b /\ tables (i_s b') = tables (i_s b) /\ i_tab b' = i_tab b).
+  Proof.
+    unfold w_atomic. destruct (atomic_run f now _ false false os) as [[[s' rs] ab] er]. destruct (er || ab); intros E; inversion E; subst.
+    - right. repeat split; reflexivity.
+    - left. reflexivity.
   Qed.
 
   Lemma run_seq_in_use f now (os : list op) : forall b err, i_l b = InUse ->
@@ -247,5 +261,22 @@ Section HashRoundtrip.
     intros Hd E Hin. apply import_in_use. unfold w_bulk, run_bulk in E.
     destruct (run_seq (w_elem H pre f now) bres_ok BCancelled false b false os) as [[s1 rs1] e1] eqn:R. simpl in E. inversion E; subst.
     eapply run_seq_commit_in_use; [exact Hd | exact R | exact Hin].
+  Qed.
+  (* ---------------------------------------------------------------- since the repair: an atomic bulk of one element on the
+     still-initializing copy IS the facade write of that element (same state, same hash column, in-use, same ids) *)
+  Theorem atomic_single_element f now b o s' lid tid :
+    i_l b = Initializing -> o_dry o = false -> step f now (resync (i_s b)) o = SR s' (ROk lid tid false) ->
+    w_atomic H pre f now b [o] = (fst (w_single H pre f now b o), AResults [ARes (BRes (Some (ROk lid tid false)))]).
+  Proof.
+    intros El Hd S. unfold w_atomic, w_single. rewrite El. cbn [atomic_run]. rewrite S.
+    destruct (step_commit_one_log f now (resync (i_s b)) o s' lid tid Hd S) as [l (_ & _ & _ & _ & _ & _ & C & _)].
+    assert (Htx : tx_collides (resync (i_s b)) (ROk lid tid false) = false).
+    { unfold tx_collides. destruct tid as [t|]; [|reflexivity]. rewrite (step_tx_id f now _ o s' lid t S).
+      unfold id_taken. destruct (existsb _ _) eqn:X; [|reflexivity]. apply existsb_exists in X. destruct X as [x [Hin Hx]].
+      apply Z.eqb_eq in Hx. pose proof (proj1 (resync_above (i_s b)) x Hin) as Hlt. exfalso. lia. }
+    assert (Hlg : log_collides (resync (i_s b)) (ROk lid tid false) = false).
+    { unfold log_collides. destruct (existsb _ _) eqn:X; [|reflexivity]. apply existsb_exists in X. destruct X as [x [Hin Hx]].
+      apply Z.eqb_eq in Hx. pose proof (proj2 (resync_above (i_s b)) x Hin) as Hlt. rewrite C in Hx. exfalso. lia. }
+    rewrite Htx, Hlg. cbn. unfold committed. rewrite Hd. reflexivity.
   Qed.
 End HashRoundtrip.
